@@ -608,6 +608,9 @@ func (x *Exec) intrinsic(st *State, fr *Frame, resInstr ssa.Instruction, name st
 	case strings.HasPrefix(name, "(*sync.WaitGroup)."):
 		m := name[strings.LastIndex(name, ".")+1:]
 		st.events = append(st.events, &Event{Kind: "wg", Name: "wg." + m, Callee: args[0], Args: args[1:], Index: len(st.events)})
+		if m == "Wait" {
+			x.syncPoint(st)
+		}
 		return nil, true
 	case name == "strings.Index":
 		// Index(s, sub) for a constant sub: -1, or a position where sub occurs (character by character)
@@ -717,8 +720,11 @@ func (x *Exec) typeIDByName(k string) int {
 func (x *Exec) lockEvent(st *State, fr *Frame, kind string, lock Value) {
 	p, _ := lock.(PtrV)
 	key := x.ptrScalar(p).S
-	st.events = append(st.events, &Event{Kind: kind, Name: kind, Callee: lock, Index: len(st.events)})
+	ev := &Event{Kind: kind, Name: kind, Callee: lock, Index: len(st.events)}
+	st.events = append(st.events, ev)
 	if kind == "lock" {
+		x.syncPoint(st)
+		ev.Heap = copyHeap(st.heap)
 		st.held[key] = true
 	} else {
 		delete(st.held, key)
